@@ -483,9 +483,9 @@ def gen_cases(rng, tier):
         cases.append(gen_sub_case(rng))
     for _ in range(12 if tier == 'quick' else 200):
         cases.append(gen_resetflow_case(rng))
-    for _ in range(14 if tier == 'quick' else 400):
+    for _ in range(14 if tier == 'quick' else 200):
         cases.append(gen_xcopy_case(rng))
-    for _ in range(14 if tier == 'quick' else 400):
+    for _ in range(14 if tier == 'quick' else 200):
         cases.append(gen_resetflow_m_case(rng))
     for _ in range(n):
         streams = [gen_stream(rng) for _ in range(rng.choice([2, 2, 3]))]
